@@ -42,6 +42,7 @@ struct Layout {
     std::vector<Lie> lies;
     int codec = 0;
     std::vector<ChunkLayout> chunks;   // rg-major
+    int root_rep = -1;   // repetition_type stated on the root element (-1: absent, as the format says; Arrow C++ states REPEATED) - readers ignore it
     bool long_form = false, junk_fields = false, kv_meta = false, exotic_snappy = false, column_orders = true, ordinals = true;
     int version = 1;
     std::string created_by = "refparquet version 1.0 (build sim)";
@@ -127,7 +128,7 @@ static inline void add_junk(TV& st, sim::Rng& r) {
     for (int k = 0; k < n; k++) {
         int id = 100 + (int)r.below(30000);
         TV v;
-        switch (r.below(9)) {
+        switch (r.below(11)) {
             case 0: v = TV::I32((int32_t)r.next()); break;
             case 1: v = TV::I64((int64_t)r.next()); break;
             case 2: v = TV::Bin(std::string(r.below(40), 'j')); break;
@@ -136,6 +137,9 @@ static inline void add_junk(TV& st, sim::Rng& r) {
             case 5: { v = TV::List(TT_I32); for (uint32_t i = 0; i < r.below(20); i++) v.l.push_back(TV::I32(i)); break; }
             case 6: { v = TV::Struct(); v.add(1, TV::I8(7)); v.add(3, TV::Bin("x")); TV in = TV::Struct(); in.add(2, TV::I16(-3)); v.add(9, in); break; }
             case 7: { v.t = TT_MAP; v.kt = TT_BINARY; v.vt = TT_I32; for (uint32_t i = 0; i < r.below(4); i++) v.m.push_back({TV::Bin("k"), TV::I32(i)}); break; }
+            // containers with more elements than a reader's first header window has bytes left
+            case 8: { v = TV::List(TT_BYTE); uint32_t n = 200 + r.below(400); for (uint32_t i = 0; i < n; i++) v.l.push_back(TV::I8((int)(i & 63))); break; }
+            case 9: { v = TV::List(TT_I32); uint32_t n = 40 + r.below(260); for (uint32_t i = 0; i < n; i++) v.l.push_back(TV::I32((int32_t)i * 3)); break; }
             default: { v = TV::List(TT_STRUCT); TV e = TV::Struct(); e.add(1, TV::Bool(true)); v.l.push_back(e); v.l.push_back(e); break; }
         }
         st.f.push_back({id, v});
@@ -147,6 +151,7 @@ static inline void schema_elements(const Node& n, bool is_root, std::vector<TV>&
     TV e = TV::Struct();
     if (n.leaf) { e.add(1, TV::I32(n.type)); if (n.type == T_FLBA) e.add(2, TV::I32(n.tlen)); }
     if (!is_root) e.add(3, TV::I32(n.rep));
+    else if (lay.root_rep >= 0) e.add(3, TV::I32(lay.root_rep));
     e.add(4, TV::Bin(n.name));
     if (!n.leaf) e.add(5, TV::I32((int64_t)n.kids.size()));
     if (n.leaf && n.logical == 1 && n.type == T_BA) { e.add(6, TV::I32(0)); TV lt = TV::Struct(); lt.add(1, TV::Struct()); e.add(10, lt); }
